@@ -100,8 +100,17 @@ let () =
       let s = tk_run amt_id kk (zs req) l in
       let m = Printf.sprintf "b=%s;g=%s" (csv (List.map sz s.tk_base))
           (match s.tk_guard with Some g -> sz g | None -> "-") in
+      (* predicate on the implementation's observation: it keeps the k largest coins not above the
+         required amount and the smallest coin above it *)
       let spec = List.map sz (sort_z (top_k_spec amt_id kk (zs req) l)) in
-      let got = List.map sz (sort_z (tk_items s)) in
+      let got =
+        try
+          match String.split_on_char ';' impl with
+          | [b; g] ->
+            let b = String.sub b 2 (String.length b - 2) and g = String.sub g 2 (String.length g - 2) in
+            List.map sz (sort_z (zlist b @ (if g = "-" then [] else [zs g])))
+          | _ -> ["?"]
+        with _ -> ["?"] in
       Printf.printf "S\t%s\t%s\t%s\t%s\n" tag impl m (if spec = got then "holds" else "fails:spec")
     | "O" :: tag :: amount :: amts :: impl :: _ ->
       let l = zlist amts in
